@@ -486,6 +486,19 @@ class _Run:
         if f[0] == "a" and f[1][0] == "new":
             if f[2] in ("append", "add") and len(args) == 1 and not kwargs and f[1][1] in ("list", "set"):
                 self.builders.setdefault(f[1], []).append((args[0], tuple(ctx.loops), tuple(ctx.pc)))
+            elif f[2] in ("extend", "update") and len(args) == 1 and not kwargs and f[1][1] in ("list", "set") and args[0][0] == "comp" \
+                    and args[0][1] == "list" and args[0][3]:
+                # xs.extend([e for ..]) adds e for every iteration of the comprehension's loops, in order
+                loops2 = list(ctx.loops)
+                pc2 = list(ctx.pc)
+                for dom, conds in args[0][3]:
+                    loops2.append(("for", dom, False, len(pc2)))
+                    for c in conds:
+                        pc2.append(Conj(c, "filter", node.lineno))
+                self.builders.setdefault(f[1], []).append((args[0][2], tuple(loops2), tuple(pc2)))
+            elif f[2] in ("extend",) and len(args) == 1 and not kwargs and f[1][1] == "list" and args[0][0] in ("list", "tuple"):
+                for x in args[0][1]:
+                    self.builders.setdefault(f[1], []).append((x, tuple(ctx.loops), tuple(ctx.pc)))
             elif f[2] in MUTATORS:
                 self.dirty.add(f[1])
         real = [t for t in targets if not t.startswith("new:")]
@@ -746,6 +759,24 @@ class _Run:
                 if value[0] not in ("c",):
                     self.norm.var_types[value] = ann
             return
+        if isinstance(tgt, (ast.Tuple, ast.List)) and sum(isinstance(e, ast.Starred) for e in tgt.elts) == 1:
+            # `first, *rest = xs`: positions before the star count from the front, after it from the back, the star takes the slice between
+            k = [i for i, e in enumerate(tgt.elts) if isinstance(e, ast.Starred)][0]
+            after = len(tgt.elts) - k - 1
+            if value[0] in ("tuple", "list") and len(value[1]) >= len(tgt.elts) - 1:
+                vals = list(value[1])
+                for el, v in zip(tgt.elts[:k], vals[:k]):
+                    self.assign_target(el, v, line)
+                self.assign_target(tgt.elts[k].value, ("list", tuple(vals[k:len(vals) - after])), line)     # type: ignore[attr-defined]
+                for el, v in zip(tgt.elts[k + 1:], vals[len(vals) - after:]):
+                    self.assign_target(el, v, line)
+            else:
+                for i, el in enumerate(tgt.elts[:k]):
+                    self.assign_target(el, mk_sub(value, C(i)), line)
+                self.assign_target(tgt.elts[k].value, ("sl", value, C(k) if k else None, C(-after) if after else None, None), line)   # type: ignore[attr-defined]
+                for i, el in enumerate(tgt.elts[k + 1:]):
+                    self.assign_target(el, mk_sub(value, C(i - after)), line)
+            return
         if isinstance(tgt, (ast.Tuple, ast.List)):
             if value[0] in ("tuple", "list") and len(value[1]) == len(tgt.elts):
                 for el, v in zip(tgt.elts, value[1]):
@@ -981,6 +1012,22 @@ class _Run:
     def s_For(self, st: ast.For) -> Set[str]:
         ctx = self.cur
         it = self.N(st.iter)
+        empty = lambda t: t in (("tuple", ()), ("list", ()))      # noqa
+        if it[0] == "ife" and len(it) == 4 and empty(it[2]) != empty(it[3]) and not st.orelse:
+            # for x in (() if c else xs): B   is   if not c: for x in xs: B
+            cond = mk_not(it[1]) if empty(it[2]) else it[1]
+            base = list(ctx.pc)
+            base_env = dict(ctx.scope.env)
+            ctx.pc = base + [Conj(cond, "branch", st.lineno)]
+            out = self._s_For(st, it[3] if empty(it[2]) else it[2])
+            env_t = dict(ctx.scope.env)
+            ctx.scope.env = self._merge_env(cond, base_env, env_t, dict(base_env))
+            ctx.pc = base
+            return out
+        return self._s_For(st, it)
+
+    def _s_For(self, st: ast.For, it: Term) -> Set[str]:
+        ctx = self.cur
         if it[0] == "comp" and it[1] == "list" and it[3] and not st.orelse:
             return self._for_over_comp(st, it)
         if it[0] in ("tuple", "list") and 0 < len(it[1]) <= 16 and not contains_jump(st.body, (ast.Break, ast.Continue)):
@@ -1038,7 +1085,11 @@ class _Run:
         """`for x in (e for a in A for b in B if c): body`  ==  `for a in A: for b in B: if c: x = e; body`"""
         ctx = self.cur
         names = assigned_names(st.body) | assigned_names([ast.Assign(targets=[st.target], value=ast.Constant(0), lineno=st.lineno)])
-        self._havoc(names)
+        accs = self._accumulators(st.body)
+        pre = dict(ctx.scope.env)
+        self._havoc(names - set(accs))
+        for n_ in accs:
+            ctx.scope.env[n_] = ("lv", n_, 0)
         base_pc = list(ctx.pc)
         early = contains_jump(st.body, (ast.Break, ast.Return))
         n = 0
@@ -1048,10 +1099,18 @@ class _Run:
             for c in conds:
                 ctx.pc.append(Conj(c, "filter", st.lineno))
         self.assign_target(st.target, it[2], st.lineno)
-        out_b = self.block(st.body)
+        acc_terms: Dict[str, Term] = {}
+        out_b = self.block_with_acc(st.body, accs, acc_terms)
         del ctx.loops[len(ctx.loops) - n:]
         ctx.pc = base_pc
-        self._havoc(names)
+        self._havoc(names - set(accs))
+        for n_, _aug in accs.items():
+            init = pre.get(n_, ("v", n_))
+            inc = acc_terms.get(n_)
+            if inc is None:
+                ctx.scope.env[n_] = self.norm.fresh_lv(n_)
+            else:
+                ctx.scope.env[n_] = lin_add(init, ("sum", inc, tuple(it[3])))
         self._finish_builders()
         return {"fall"} | (out_b - {"break", "continue", "fall"})
 
